@@ -645,7 +645,7 @@ class Full(Engine):
             bad = z3.Or(x < self.const(lo), x >= self.const(hi))
             if self.pybool(z3.simplify(bad)) is not False:
                 self.raises.append((z3.And(pc, bad), OverflowError))
-            out = [z3.Extract(8 * (n - i) - 1, 8 * (n - i - 1), x) for i in range(n)]
+            out = [z3.simplify(z3.Extract(8 * (n - i) - 1, 8 * (n - i - 1), x)) for i in range(n)]
         if order != "big":
             out.reverse()
         return SBytes(out)
